@@ -1,2 +1,31 @@
-(* C03 — compiled reader equivalent to the interpreted reader. (see DESIGN.md) *)
-From VF Require Import Model.Writer Gen.GeneratedOk.
+(* C03 — the compiled reader is observationally equivalent to the interpreted reader. *)
+From VF Require Import Model.Reader Model.Writer Proofs.ArrayProps Proofs.BlockProps Gen.GeneratedOk.
+Open Scope string_scope. Open Scope list_scope. Open Scope Z_scope.
+
+(* The source generator of compiler.py is NOT modelled (DESIGN.md 10.1): both readers are compared, on every run, with Model.Reader — the
+   reference the reader theorems (Props/C07, C08, C09) are proved about.  What is proved here is the soundness of the strategy the
+   generated code uses: a run of fixed-size scalar members is read with one stream read and one struct.unpack of the concatenated
+   format, and that gives exactly the values, the end position and the error of reading the members one by one, as the interpreted
+   structure loop does — for every run of members, every stream and every position. *)
+Theorem block_unpack_is_fieldwise : forall e ps s pos, Forall (fun p => fixed_scalar p <> None) ps -> 0 <= pos ->
+  Z.of_nat (fmt_size ps) <= 9223372036854775807 -> block_read e ps s pos = fieldwise e ps s pos.
+Proof. exact block_is_fieldwise. Qed.
+Theorem fieldwise_is_the_interpreted_loop : forall e start (fs : list (string * prim)) s pos bb vals sizes lctx,
+  loop_obs (struct_loop e false start
+              (map (fun np => (mkFM (fst np) None (Some (snd np, 1)) 1, (fun s pos _ => prim_read_at e (snd np) s pos) : rfn)) fs)
+              (map (fun _ => None) fs) s pos bb vals sizes lctx)
+  = do r <- fieldwise e (map snd fs) s pos; Ok (map snd (rev vals) ++ fst r, snd r).
+Proof. exact struct_loop_scalars. Qed.
+(* the same for arrays of packed scalars (Packed._read_array, also used by the generated code) *)
+Theorem array_unpack_is_elementwise : forall c p sz, fixed_scalar p = Some sz -> forall n s pos ctx,
+  0 <= pos -> 0 <= n -> Z.of_nat sz * n <= 9223372036854775807 ->
+  packed_read_n c p n s pos = seq_n (fun s pos _ => prim_read_at (c_endian c) p s pos) (Z.to_nat n) s pos ctx.
+Proof. exact bulk_is_sequential. Qed.
+
+Print Assumptions block_unpack_is_fieldwise.
+Print Assumptions fieldwise_is_the_interpreted_loop.
+
+Example ex_block : block_read "<" [PInt 2 false true; PInt 1 true true; PFloat 4] [1; 2; 255; 0; 0; 128; 63; 9] 0
+  = Ok ([VInt 513; VInt (-1); VFloat 1065353216], 7)
+  /\ block_read "<" [PInt 2 false true; PInt 1 true true; PFloat 4] [1; 2; 255; 0; 0; 128] 0 = Err EEof.
+Proof. vm_compute. split; reflexivity. Qed.
